@@ -201,6 +201,10 @@ class MetLayout(One3dLayout):
         self.B = len(self.seq) * self.P
         self.length = T * self.B
 
+    def all_dynamic(self):
+        return [(ti * self.B + ri * self.P, self.P - 8, 'one', (ti, ri))
+                for ti in range(self.T) for ri in range(len(self.seq))]
+
     def write_fields(self, path, rows, cols):
         """encode with struct only; returns {variable: array}"""
         rng = np.random.RandomState(13)
@@ -310,6 +314,8 @@ class SymFile(object):
     twin's unpack_from_file asks model_unpack for the values the layout puts
     at the current position"""
 
+    name = 'symbolic-record-file'
+
     def __init__(self, ctx, layout):
         self.ctx, self.lay = ctx, layout
         self.pos = 0
@@ -375,10 +381,14 @@ class SymFile(object):
                 pv = val(pos)
                 if pv is not None:
                     cands = [c for c in cands
-                             if val(c[0]) in (pv, pv - 4)]
+                             if val(c[0]) in (pv, pv - 4) or
+                             val(c[0] + 4 + c[1]) == pv]
         for start, rsize, kind, ref in cands:
             if f == 'i' and self._same(pos, start):
                 out = (rsize,)
+                break
+            if f == 'i' and self._same(pos, start + 4 + rsize):
+                out = (rsize,)          # trailing marker
                 break
             if self._same(pos, start + 4):
                 if kind in ('emiss', 'grid', 'cell', 'species'):
@@ -390,7 +400,8 @@ class SymFile(object):
                         struct.unpack('>' + f, b'\0' * size))]
                 elif kind == 'one':
                     d, t = self.lay.times[ref[0]]
-                    out = (t, d)[:len(struct.unpack('>' + f, b'\0' * size))]
+                    out = (t, d, 0)[:len(struct.unpack('>' + f,
+                                                       b'\0' * size))]
                 else:
                     out = None
                 break
